@@ -9,8 +9,8 @@ META = {
     "technique": "Rocq proof that the executable audit rc_exact_b decides 'reported count = handles + stored parent edges (+ manager-owned chain edges)' and that exact counts with no zero-count node imply every stored node is reachable from a handle; state-machine theorems on the interleaving model (whole collection frees exactly the unreferenced nodes); for MTBDDs a model of the dynamic terminal manager (hash-consed, reference-counted terminals in slots with a free chain) with the invariant 'values distinct, slots partitioned, count = owned edges + parent edges' preserved under every interleaving; correspondence: the audits run on a snapshot of the real manager after every step of histories with clone/drop (also on other threads), explicit and automatic gc, reordering and failing operations, plus capacity probes for inner nodes and terminals, and the extracted terminal-manager model is replayed on the lifted snapshot for every gc() and every constant()",
     "category": "proof",
     "design_ref": "DESIGN.md section 5, C05",
-    "level_text": "Theorems (coq/Props/C05.v): rc_exact_b_spec (the audit is exactly the property's counting equation), no_dead_b_spec and no_dead_reachable (on a well-formed table with exact counts, 'no node with count 0' means every stored node is reachable from a live handle, i.e. a collection left exactly the referenced nodes). Tie to the code: after every step of every history the extracted audit is evaluated on the lifted manager (for ZBDD the manager's own tautology chain is included as owner); after each gc() no unreferenced node may remain and every handle must denote the same value table as before; after dropping all handles and gc() the node count must be that of a fresh manager; a capacity probe fills a small manager with single-node functions that are all kept alive and requires the store to be completely full at the first out-of-memory, before and after a history (no slot is lost). MTBDD terminals (coq/Mgr/Terminals.v mirrors terminal_manager/dynamic.rs: get_edge, retain/release, iterator, gc, free chain; 36 theorems C05_term_*): the invariant (ids and values pairwise distinct, ids + free chain partition the slots, count = owner tokens + parent edges of stored inner nodes) holds in every state reachable under any interleaving of the threads' actions, collector steps and whole collections; gc removes exactly the terminals without owner and parent (any visiting order); get_edge returns the same id for a value until that terminal is collected, fails iff the value is absent and all slots are in use, and re-creates a collected value as a new entry; Manager::gc keeps a terminal iff a handle or a surviving inner node refers to it; after dropping all handles nothing is left and every slot is free; the iterator's retain and the consumer's drop_edge cancel. Tie: on every MTBDD snapshot the extracted invariant checker minv_b holds on the lifted state; for every GC the ids of the surviving terminals and inner nodes equal those of the extracted tcollect on the pre-state and gc()'s return value equals tcollect_count; for every constant() the extracted tstep(TGet) decides live terminal (the handle must be exactly it) / new slot (an id not in use) / out of memory; a terminal capacity probe (managers with 3..12 terminal slots) must find every slot in use at the first OutOfMemory, before and after a history with collections. Collector replay (package C02s; C05_sm_collect_keys / _count, C05_gc_snap_lift / _exact / _count / _example, coq/Mgr/ConcGcCount.v): the number of nodes a collection frees (Manager::gc's return value) is the number of stored nodes no owned edge reaches; for a snapshot lifted by of_snap (handles and the ZBDD chain edges as owners) that passes cinv_b, a node is stored after collect iff it was stored and is reachable (TableProofs.reachable) from a handle or chain edge, survivors keep level and children. Tie: every explicit gc() of the Boolean-kind histories is replayed by ocaml/c05s_main.ml on the extracted of_snap + ConcGc.collect: surviving ids, their levels / children / reference counts and gc()'s return value (exact when gc_count advanced by one, <= when the background collector ran first) must equal the model's; reach_own_b / garbage / idempotence cross-checked on tables up to 60 nodes.",
-    "level_note": "Trusted: Coq kernel, extraction, OCaml driver, Rust harness, public accessor API (ref_count). Free lists, chunked slot allocation and the timing of the background collector are not modelled: their effect is observed at quiescence (snapshots are taken under the exclusive manager lock). Terminal reference counts are not readable through the public API: the lifted terminal table carries the counts the invariant prescribes (handles + parent edges); a wrong stored count shows as a terminal that survives or vanishes against the model at the next gc(). The slot order of the terminal manager's hash table (visiting order of gc and of the iterator, hence the order of the free chain) is not fixed by the model: theorems hold for every order; the overflow guard of retain and memory orderings are not modelled.",
+    "level_text": "Theorems (coq/Props/C05.v): rc_exact_b_spec (the audit is exactly the property's counting equation), no_dead_b_spec and no_dead_reachable (on a well-formed table with exact counts, 'no node with count 0' means every stored node is reachable from a live handle, i.e. a collection left exactly the referenced nodes). Tie to the code: after every step of every history the extracted audit is evaluated on the lifted manager (for ZBDD the manager's own tautology chain is included as owner); after each gc() no unreferenced node may remain and every handle must denote the same value table as before; after dropping all handles and gc() the node count must be that of a fresh manager; a capacity probe fills a small manager with single-node functions that are all kept alive and requires the store to be completely full at the first out-of-memory, before and after a history (no slot is lost). MTBDD terminals (coq/Mgr/Terminals.v mirrors terminal_manager/dynamic.rs: get_edge, retain/release, iterator, gc, free chain; 36 theorems C05_term_*): the invariant (ids and values pairwise distinct, ids + free chain partition the slots, count = owner tokens + parent edges of stored inner nodes) holds in every state reachable under any interleaving of the threads' actions, collector steps and whole collections; gc removes exactly the terminals without owner and parent (any visiting order); get_edge returns the same id for a value until that terminal is collected, fails iff the value is absent and all slots are in use, and re-creates a collected value as a new entry; Manager::gc keeps a terminal iff a handle or a surviving inner node refers to it; after dropping all handles nothing is left and every slot is free; the iterator's retain and the consumer's drop_edge cancel. Tie: on every MTBDD snapshot the extracted invariant checker minv_b holds on the lifted state; for every GC the ids of the surviving terminals and inner nodes equal those of the extracted tcollect on the pre-state and gc()'s return value equals tcollect_count; for every constant() the extracted tstep(TGet) decides live terminal (the handle must be exactly it) / new slot (an id not in use) / out of memory; a terminal capacity probe (managers with 3..12 terminal slots) must find every slot in use at the first OutOfMemory, before and after a history with collections. Collector replay (package C02s; C05_sm_collect_keys / _count, C05_gc_snap_lift / _exact / _count / _example, coq/Mgr/ConcGcCount.v): the number of nodes a collection frees (Manager::gc's return value) is the number of stored nodes no owned edge reaches; for a snapshot lifted by of_snap (handles and the ZBDD chain edges as owners) that passes cinv_b, a node is stored after collect iff it was stored and is reachable (TableProofs.reachable) from a handle or chain edge, survivors keep level and children. Tie: every explicit gc() of the Boolean-kind histories is replayed by ocaml/c05s_main.ml on the extracted of_snap + ConcGc.collect: surviving ids, their levels / children / reference counts and gc()'s return value (exact when gc_count advanced by one, <= when the background collector ran first) must equal the model's; reach_own_b / garbage / idempotence cross-checked on tables up to 60 nodes. TDD (package TDDx, theorems C05_tdd_*): td_rc_b (DD/TddAudit.v) decides 'count = handles holding the node + (true, unknown, false) child slots of stored nodes pointing to it' on every snapshot and is the generic audit rc_exact_b on every TdOK table (as booleans: C05_tdd_rc_b_spec, _rc_b_exact, _rc_owners); exact counts + no zero count => every stored node is reachable from a handle, no handle => empty store (C05_tdd_no_dead_reachable, _dropall_empty); a collection of a TdOK table is TdOK, a sub-table, keeps every handle and the function of every surviving reference and leaves nothing unreachable (C05_tdd_collected_ok); gc() inside any history of the TDD manager state machine keeps the invariant, the handles and their functions and exactly the reachable nodes (C05_tdd_hist_gc, _hist_dropall_gc). Tie: kind tdd of h_dd: histories with clone / drop (also on another thread) / gc / reordering / add_vars: rc_first_bad AND td_rc_b after every op, no_dead_b after every gc, empty store after drop-all + gc, for every GC the surviving node ids must be exactly those the extracted gc_model keeps on the lifted pre-state (ocaml/tddh.ml); stores of 6..200 nodes framed by the ternary capacity probe T3FILL (single-node steps until out-of-memory: every slot in use, before and after a history with failing operations).",
+    "level_note": "Trusted: Coq kernel, extraction, OCaml driver, Rust harness, public accessor API (ref_count). Free lists, chunked slot allocation and the timing of the background collector are not modelled: their effect is observed at quiescence (snapshots are taken under the exclusive manager lock). Terminal reference counts are not readable through the public API: the lifted terminal table carries the counts the invariant prescribes (handles + parent edges); a wrong stored count shows as a terminal that survives or vanishes against the model at the next gc(). The slot order of the terminal manager's hash table (visiting order of gc and of the iterator, hence the order of the free chain) is not fixed by the model: theorems hold for every order; the overflow guard of retain and memory orderings are not modelled. TDD: the model's collection (gc_model) restricts the node map and does not maintain counters (C05_tdd_example shows the stale count the audit notices); the counters of the real manager after gc() are audited on the lifted snapshot.",
 }
 ALLOWED_AXIOMS = ()
 
